@@ -4,6 +4,8 @@
 #include "libphysica/Integration.hpp"
 #include "libphysica/Linear_Algebra.hpp"
 #include <cmath>
+#include <string>
+#include <algorithm>
 using namespace libphysica;
 int main()
 {
@@ -26,6 +28,36 @@ int main()
 		bool ok = out2 == 0 && out3 == 0 && outs == 0;
 		printf("OBSERVED %s: evaluation points outside their own limits: 2D %d, 3D %d, spherical %d of %d%s\n", m, out2, out3, outs, evals, ok ? "" : "  ** VIOLATES the property **");
 		if(!ok) bad++;
+	}
+	// orientation and separability: a separable integrand gives the product of the one-dimensional integrals, and reversing any
+	// subset of the pairs of limits multiplies the result by (-1)^(number of reversed pairs); equal limits give zero
+	const char* all_methods[] = {"Trapezoidal", "Gauss-Legendre", "Gauss-Kronrod", "Tanh-Sinh", "Adaptive-Simpson", "Gauss-Legendre_2"};
+	int shown = 0;
+	for(const char* m : all_methods)
+	{
+		auto g2 = [](double x, double y) { return (1.0 + x * x) * std::exp(0.3 * y); };
+		double X = (2.0 - 1.0) + (8.0 - 1.0) / 3.0, Y = (std::exp(0.3 * 1.5) - std::exp(0.3 * 0.5)) / 0.3;
+		for(int mask = 0; mask < 4; mask++)
+		{
+			double x1 = 1.0, x2 = 2.0, y1 = 0.5, y2 = 1.5, sign = 1.0;
+			if(mask & 1) { std::swap(x1, x2); sign = -sign; }
+			if(mask & 2) { std::swap(y1, y2); sign = -sign; }
+			double v = Integrate_2D(g2, x1, x2, y1, y2, m, 0);
+			if(std::fabs(v - sign * X * Y) > 1e-5 * X * Y) { if(shown++ < 8) printf("OBSERVED Integrate_2D(%s) over x: %g..%g, y: %g..%g = %.9g, analysis %.9g  ** VIOLATES the property **\n", m, x1, x2, y1, y2, v, sign * X * Y); bad++; }
+		}
+		if(Integrate_2D(g2, 1.0, 1.0, 0.5, 1.5, m, 0) != 0.0 || Integrate_2D(g2, 1.0, 2.0, 0.5, 0.5, m, 0) != 0.0) { printf("OBSERVED Integrate_2D(%s) with equal limits is not zero  ** VIOLATES the property **\n", m); bad++; }
+		if(std::string(m) != "Gauss-Legendre" && std::string(m) != "Gauss-Legendre_2") continue;	  // the 3D nests of the adaptive methods take minutes under the sanitizers
+		auto g3 = [](double x, double y, double z) { return (1.0 + x * x) * std::exp(0.3 * y) * (2.0 + z); };
+		double Z = 2.0 * 0.5 + (1.0 - 0.25) / 2.0;
+		for(int mask = 0; mask < 8; mask++)
+		{
+			double x1 = 1.0, x2 = 2.0, y1 = 0.5, y2 = 1.5, z1 = 0.5, z2 = 1.0, sign = 1.0;
+			if(mask & 1) { std::swap(x1, x2); sign = -sign; }
+			if(mask & 2) { std::swap(y1, y2); sign = -sign; }
+			if(mask & 4) { std::swap(z1, z2); sign = -sign; }
+			double v = Integrate_3D(g3, x1, x2, y1, y2, z1, z2, m, 0);
+			if(std::fabs(v - sign * X * Y * Z) > 1e-5 * X * Y * Z) { if(shown++ < 8) printf("OBSERVED Integrate_3D(%s) with reversed pairs %d = %.9g, analysis %.9g  ** VIOLATES the property **\n", m, mask, v, sign * X * Y * Z); bad++; }
+		}
 	}
 	printf(bad ? "REPRODUCED %d\n" : "NOT-REPRODUCED\n", bad);
 	return 0;
